@@ -13,6 +13,7 @@ Record Amount := mkAmount {
   a_div : A -> A -> res A;                 (* Decimal panics on a zero divisor *)
   a_neg : A -> A;                          (* unary minus *)
   a_abs : A -> A;
+  a_sign_neg : A -> bool;                  (* f64::is_sign_negative: the sign bit (also of zeros and NaNs) *)
   a_eqb : A -> A -> bool;                  (* PartialEq::eq *)
   a_cmp : A -> A -> option comparison;     (* PartialOrd::partial_cmp *)
   a_of_lit : lit -> option A;              (* Amnt!(literal); None: does not compile *)
